@@ -1,7 +1,7 @@
 #!/bin/bash
 # usage: validate_seed.sh <ID> <n>   validates /tmp/seedout/<ID>/change<n> in a fresh scratch worktree of /repo HEAD
 ID=$1; N=$2
-SRC=/tmp/seedout/$ID/change$N
+SRC=${SEEDOUT:-/tmp/seedout}/$ID/change$N
 WT=/tmp/val/${ID}_$N
 OUT=/tmp/val/result_${ID}_$N.json
 mkdir -p /tmp/val
